@@ -14,17 +14,21 @@
 (***************************************************************************)
 EXTENDS Integers, Sequences, FiniteSets, TLC
 
-CONSTANTS Alphabet, Delim, MaxLen, Initial, FromEnd
+CONSTANTS Alphabet, Delim, MaxLen, Initial, FromEnd,
+          Burst     \* FALSE: the tree (each record's emit is awaited before the next one); TRUE: the records of one read are
+                    \* handed on back to back and awaited together (refuted by OneAtATime)
 
 VARIABLES file, pos, buffer, pending, emitted,
+          inflight, \* records handed to a consumer that returned an awaitable and has not finished: the source awaits it
+                    \* before it emits the next record or reads again (sources.py:179-180) -- back-pressure, C03
           on       \* the source has been started and not stopped since: only then does a new polling cycle (a read) begin;
                    \* the records of the cycle in progress are still emitted after a stop
-vars == <<file, pos, buffer, pending, emitted, on>>
+vars == <<file, pos, buffer, pending, emitted, inflight, on>>
 
 L == Len(Delim)
 StartPos == IF FromEnd THEN Len(Initial) ELSE 0
 
-Init == /\ file = Initial /\ pos = StartPos /\ buffer = <<>> /\ pending = <<>> /\ emitted = <<>> /\ on = FALSE
+Init == /\ file = Initial /\ pos = StartPos /\ buffer = <<>> /\ pending = <<>> /\ emitted = <<>> /\ inflight = 0 /\ on = FALSE
 
 \* position of the leftmost occurrence of Delim in s (0: none) -- str.split / `in` semantics
 Occurs(s, i) == i + L - 1 <= Len(s) /\ SubSeq(s, i, i + L - 1) = Delim
@@ -40,27 +44,30 @@ Rest(s) == LET i == Find(s) IN IF i = 0 THEN s ELSE Rest(SubSeq(s, i + L, Len(s)
 Write(chunk) ==
     /\ Len(file) + Len(chunk) <= MaxLen
     /\ file' = file \o chunk
-    /\ UNCHANGED <<pos, buffer, pending, emitted, on>>
+    /\ UNCHANGED <<pos, buffer, pending, emitted, inflight, on>>
 
 \* one read(): everything not yet read is appended to the buffer and split
 Poll ==
-    /\ on /\ pending = <<>> /\ pos < Len(file)
+    /\ on /\ pending = <<>> /\ inflight = 0 /\ pos < Len(file)
     /\ LET b == buffer \o SubSeq(file, pos + 1, Len(file)) IN
        /\ pending' = Records(b)
        /\ buffer' = Rest(b)
     /\ pos' = Len(file)
-    /\ UNCHANGED <<file, emitted, on>>
+    /\ UNCHANGED <<file, emitted, inflight, on>>
 
-\* the records of one read are emitted one after the other (each awaited)
-EmitRec ==
-    /\ pending # <<>>
+\* the records of one read are emitted one after the other, each awaited: its consumer finishes at once (synchronous: async = FALSE)
+\* or later
+EmitRec(async) ==
+    /\ pending # <<>> /\ (Burst \/ inflight = 0)
     /\ emitted' = Append(emitted, Head(pending)) /\ pending' = Tail(pending)
+    /\ inflight' = IF async THEN inflight + 1 ELSE inflight
     /\ UNCHANGED <<file, pos, buffer, on>>
+ConsumerDone == inflight > 0 /\ inflight' = inflight - 1 /\ UNCHANGED <<file, pos, buffer, pending, emitted, on>>
 
 Chunks == {<<a>> : a \in Alphabet} \cup {<<a, b>> : a \in Alphabet, b \in Alphabet}
-Start == on' = TRUE /\ UNCHANGED <<file, pos, buffer, pending, emitted>>
-Stop == on' = FALSE /\ UNCHANGED <<file, pos, buffer, pending, emitted>>
-Next == (\E c \in Chunks : Write(c)) \/ Poll \/ EmitRec \/ Start \/ Stop
+Start == on' = TRUE /\ UNCHANGED <<file, pos, buffer, pending, emitted, inflight>>
+Stop == on' = FALSE /\ UNCHANGED <<file, pos, buffer, pending, emitted, inflight>>
+Next == (\E c \in Chunks : Write(c)) \/ Poll \/ (\E a \in BOOLEAN : EmitRec(a)) \/ ConsumerDone \/ Start \/ Stop
 Spec == Init /\ [][Next]_vars
 
 ----------------------------------------------------------------------------
@@ -75,6 +82,8 @@ WholeRecords == \A i \in 1 .. Len(emitted) : Find(emitted[i]) = Len(emitted[i]) 
 \* an unterminated tail is held back, and only that
 TailHeld == Find(buffer) = 0
 \* hence: once everything has been read and emitted, the output is exactly the records of the text
+\* C03: the source does not hand on a record while the consumer of the previous one is still busy
+OneAtATime == inflight <= 1
 \* C18: no polling cycle begins while the source is stopped (action property)
 NoReadWhileStopped == [][(pos' # pos) => on]_vars
 Exact == (pos = Len(file) /\ pending = <<>>) =>
